@@ -931,6 +931,19 @@ func (h *c14Hist) crashOp(op c14Op, pool map[string]gixSeries, step string) bool
 	if len(images) == 0 {
 		return false
 	}
+	if h.r.Quick() && len(images) > 160 {
+		// quick tier: a drop that appends hundreds of bytes to several logs is thinned evenly to
+		// about 160 images (thorough keeps every byte)
+		k := (len(images) + 159) / 160
+		var thin []c14Image
+		for i, im := range images {
+			if i%k == 0 {
+				thin = append(thin, im)
+			}
+		}
+		h.r.Event("quick_images_thinned_away", int64(len(images)-len(thin)))
+		images = thin
+	}
 	h.r.Event("ops_with_crash_enumeration_"+op.Kind, 1)
 	hc := *h
 	hc.ops = append([]c14Op(nil), h.ops...)
